@@ -2,6 +2,7 @@
 package main
 
 import (
+	"encoding/json"
 	"fmt"
 	"strings"
 	"sync"
@@ -442,6 +443,173 @@ func genSharedParams(r *common.Rng, stream string) doc {
 	return d
 }
 
+// allTypeFormats: every OpenAPI type with no format, with every format the importer's table lists (for any type)
+// and with formats in use that it does not list, spelled "type:format"
+func allTypeFormats() []string {
+	var out []string
+	for _, t := range oasTypes {
+		out = append(out, t+":")
+		for _, f := range oasListedFormats {
+			out = append(out, t+":"+f)
+		}
+		for _, f := range oasUnlistedFormats {
+			out = append(out, t+":"+f)
+		}
+	}
+	return out
+}
+
+// genTypeFormat: one document that uses each of the given primitives in every position: property, array-item
+// property, top-level definition, top-level array definition, path / query / header parameter, response (plain and
+// array). No odd names: whatever fails here is about the type.
+func genTypeFormat(r *common.Rng, format, stream string, prims []string) doc {
+	d := doc{Kind: "doc", Format: format, Stream: stream}
+	holder := schema{Name: "Holder", Kind: "object"}
+	path := "/tf"
+	e := endpoint{Method: []string{"GET", "POST", "PUT"}[r.Intn(3)]}
+	for i, p := range prims {
+		req := r.Bool()
+		holder.Props = append(holder.Props, prop{Name: fmt.Sprintf("p%d", i), T: ptype{Kind: "prim", Prim: p}, Required: req})
+		if req {
+			holder.ReqOrder = append(holder.ReqOrder, fmt.Sprintf("p%d", i))
+		}
+		holder.Props = append(holder.Props, prop{Name: fmt.Sprintf("a%d", i), T: ptype{Kind: "prim", Prim: p, Array: true}})
+		d.Schemas = append(d.Schemas, schema{Name: fmt.Sprintf("D%d", i), Kind: "prim", Elem: &ptype{Kind: "prim", Prim: p}})
+		d.Schemas = append(d.Schemas, schema{Name: fmt.Sprintf("L%d", i), Kind: "array", Elem: &ptype{Kind: "prim", Prim: p}})
+		path += fmt.Sprintf("/{k%d}", i)
+		e.Params = append(e.Params, param{Name: fmt.Sprintf("k%d", i), In: "path", Required: true, Prim: p})
+		e.Params = append(e.Params, param{Name: fmt.Sprintf("q%d", i), In: "query", Required: r.Bool(), Prim: p})
+		e.Params = append(e.Params, param{Name: fmt.Sprintf("X-H%d", i), In: "header", Required: r.Bool(), Prim: p})
+		e.Resps = append(e.Resps, resp{Code: fmt.Sprint(200 + i), Prim: p, Array: i%2 == 1})
+	}
+	d.Schemas = append([]schema{holder}, d.Schemas...)
+	e.Path = path
+	d.Eps = []endpoint{e}
+	return d
+}
+
+var mediaPool = []string{"application/json", "application/xml", "text/plain", "application/vnd.api+json", "application/octet-stream",
+	"text/csv", "application/x-yaml", "multipart/mixed", "application/ld+json", "*/*", "application/json; charset=utf-8"}
+
+func (g *gen) mediaSet(n int) []string {
+	idx := make([]int, len(mediaPool))
+	for i := range idx {
+		idx[i] = i
+	}
+	for i := len(idx) - 1; i > 0; i-- {
+		k := g.r.Intn(i + 1)
+		idx[i], idx[k] = idx[k], idx[i]
+	}
+	var out []string
+	for _, i := range idx[:n] {
+		out = append(out, mediaPool[i])
+	}
+	return out
+}
+
+// genMediaTypes: operations whose request body can be sent in 2-4 media types (operation-level or document-level
+// `consumes`; OpenAPI 3: several entries of requestBody.content) and whose responses come in 1-3 media types;
+// responses per status code including `default`, with $ref, array-of-$ref, primitive or no schema.
+func genMediaTypes(r *common.Rng, format, stream string) doc {
+	g := &gen{r: r, cfg: genCfg{format: format, stream: stream}}
+	d := doc{Kind: "doc", Format: format, Stream: stream}
+	var objs []string
+	for _, n := range []string{"Item", "Order", "Note"}[:1+r.Intn(3)] {
+		d.Schemas = append(d.Schemas, g.object(n, nil, 0))
+		objs = append(objs, n)
+	}
+	if format == "swagger" && r.Intn(3) == 0 {
+		d.Consumes = g.mediaSet(2 + r.Intn(2))
+	}
+	np := 1 + r.Intn(3)
+	paths := []string{"/items", "/orders/{orderId}", "/notes/{id}/attachments"}
+	for pi := 0; pi < np; pi++ {
+		path := paths[pi]
+		methods := []string{"GET", "PUT", "POST", "DELETE", "PATCH"}
+		for i := len(methods) - 1; i > 0; i-- {
+			k := r.Intn(i + 1)
+			methods[i], methods[k] = methods[k], methods[i]
+		}
+		for _, m := range methods[:1+r.Intn(3)] {
+			e := endpoint{Path: path, Method: m}
+			if strings.Contains(path, "{orderId}") {
+				e.Params = append(e.Params, param{Name: "orderId", In: "path", Required: true, Prim: "string"})
+			}
+			if strings.Contains(path, "{id}") {
+				e.Params = append(e.Params, param{Name: "id", In: "path", Required: true, Prim: "int64"})
+			}
+			if r.Intn(3) == 0 {
+				e.Params = append(e.Params, param{Name: "verbose", In: "query", Prim: "boolean"})
+			}
+			if m == "PUT" || m == "POST" || m == "PATCH" {
+				e.BodyRef = objs[r.Intn(len(objs))]
+				if len(d.Consumes) == 0 || r.Intn(3) == 0 {
+					e.Consumes = g.mediaSet(2 + r.Intn(3))
+				}
+			}
+			if r.Intn(4) > 0 {
+				e.Produces = g.mediaSet(1 + r.Intn(3))
+			}
+			codes := []string{"200", "201", "202", "400", "404", "500", "default"}
+			seen := map[string]bool{}
+			for k, nr := 0, 1+r.Intn(4); k < nr; k++ {
+				c := codes[r.Intn(len(codes))]
+				if seen[c] {
+					continue
+				}
+				seen[c] = true
+				rr := resp{Code: c}
+				switch r.Intn(5) {
+				case 0:
+				case 1:
+					rr.Prim = []string{"string", "integer", "int64", "boolean", "number:decimal", "string:email"}[r.Intn(6)]
+					rr.Array = r.Intn(3) == 0
+				default:
+					rr.Ref = objs[r.Intn(len(objs))]
+					rr.Array = r.Intn(4) == 0
+				}
+				e.Resps = append(e.Resps, rr)
+			}
+			d.Eps = append(d.Eps, e)
+		}
+	}
+	return d
+}
+
+// mediaCollisionDoc: two request media types that differ only in a character the importer drops when it names the
+// body parameter (known finding; proved: C11_body_media_name_collision_refuted)
+func mediaCollisionDoc() doc {
+	return doc{Kind: "doc", Format: "swagger", Stream: "oas2-media-name-collision",
+		Schemas: []schema{{Name: "Pet", Kind: "object", Props: []prop{{Name: "id", T: ptype{Kind: "prim", Prim: "string"}}}}},
+		Eps: []endpoint{{Path: "/pets", Method: "POST", BodyRef: "Pet", Consumes: []string{"application/a+b", "application/a.b"},
+			Resps: []resp{{Code: "200", Ref: "Pet"}}}}}
+}
+
+// genXsdBuiltins: complex types whose elements and attributes range over the wider set of XSD builtin types
+func genXsdBuiltins(r *common.Rng, stream string) doc {
+	d := doc{Kind: "doc", Format: "xsd", Stream: stream}
+	perm := append([]string{}, xsdWidePrimNames...)
+	for i := len(perm) - 1; i > 0; i-- {
+		k := r.Intn(i + 1)
+		perm[i], perm[k] = perm[k], perm[i]
+	}
+	for ti, n := range []string{"Root", "Second"} {
+		s := schema{Name: n, Kind: "object"}
+		for i, p := range perm[ti*9 : ti*9+9] {
+			pr := prop{Name: fmt.Sprintf("e%d", i), T: ptype{Kind: "prim", Prim: p}, Required: r.Bool()}
+			switch r.Intn(4) {
+			case 0:
+				pr.Attr = true
+			case 1:
+				pr.T.Array = true
+			}
+			s.Props = append(s.Props, pr)
+		}
+		d.Schemas = append(d.Schemas, s)
+	}
+	return d
+}
+
 // genSQL: tables with typed columns, a primary key (1-2 columns), foreign keys to earlier tables' single-column keys
 func genSQL(r *common.Rng, format, stream string) doc {
 	d := doc{Kind: "doc", Format: format, Stream: stream}
@@ -489,6 +657,60 @@ func genSQL(r *common.Rng, format, stream string) doc {
 	return d
 }
 
+// freshImports: the document imported once in each of n FRESH processes; every text must be the one the first
+// process produced (Go seeds its map iteration per process and per map: an order that leaks into the text shows as
+// a difference between processes even where repeated imports in one process happen to agree)
+func freshImports(c *common.Ctx, d doc, n int) {
+	d.ImportOnly = true
+	texts := make([]string, n)
+	var wg sync.WaitGroup
+	sem := make(chan struct{}, 8)
+	for i := 0; i < n; i++ {
+		wg.Add(1)
+		go func(i int) {
+			defer wg.Done()
+			sem <- struct{}{}
+			defer func() { <-sem }()
+			w := common.NewWorker()
+			defer w.Close()
+			var o docObs
+			died, timedOut, _ := w.Call(d, &o, 120*time.Second)
+			if died || timedOut {
+				texts[i] = "(process died / hung)"
+				return
+			}
+			texts[i] = o.ImpErr + "\x00" + o.ImpText
+		}(i)
+	}
+	wg.Wait()
+	c.HistN("doc-fresh-process-imports", n)
+	for i := 1; i < n; i++ {
+		if texts[i] != texts[0] {
+			d.ImportOnly = false
+			key := "second-import-differs:" + d.Format
+			if strings.Contains(texts[0]+texts[i], "circular schema reference") {
+				key = "import-fails:" + d.Format + ":circular-ref"
+			}
+			c.Fail(key, fmt.Sprintf("[%s, %s] importing the same document in fresh processes gives different text (process 1 / process %d): %s", d.Format, d.Stream, i+1, firstDiff(texts[0], texts[i])), d)
+			return
+		}
+	}
+}
+
+// hasWrapperTypes: a response with a schema and several media types makes the importer generate a type of its own
+func hasWrapperTypes(d doc) bool {
+	for _, e := range d.Eps {
+		if len(e.Produces) > 1 {
+			for _, r := range e.Resps {
+				if r.Ref != "" || r.Prim != "" {
+					return true
+				}
+			}
+		}
+	}
+	return false
+}
+
 // docsStream: the document streams and their budgets per tier.
 func docsStream(c *common.Ctx) {
 	type plan struct {
@@ -508,10 +730,10 @@ func docsStream(c *common.Ctx) {
 	// the arr.ai importers (OpenAPI 3, SQL) take seconds per document: they run in their own workers, in
 	// parallel with everything else; their documents are drawn first so that the seed fixes them
 	type ares struct {
-		d               doc
-		o               docObs
-		died, timedOut  bool
-		stderr          string
+		d              doc
+		o              docObs
+		died, timedOut bool
+		stderr         string
 	}
 	var arraiDocs []doc
 	na := 1
@@ -534,6 +756,35 @@ func docsStream(c *common.Ctx) {
 	if !c.Thorough() && !c.Search {
 		arraiDocs = append(arraiDocs, genDoc(c.Rng, genCfg{format: "openapi3", stream: "oas3-hostile-names", hostileProp: 4, hostileType: 2, maxOdd: 1}))
 	}
+	// OpenAPI 3 through the arr.ai importer: type x format in every position, several request / response media types
+	{
+		tf := allTypeFormats()
+		const per = 8
+		ndocs := (len(tf) + per - 1) / per
+		pick := []int{int(c.Seed) % ndocs}
+		if c.Thorough() || c.Search {
+			pick = nil
+			for i := 0; i < ndocs; i++ {
+				pick = append(pick, i)
+			}
+		}
+		for _, i := range pick {
+			hi := (i + 1) * per
+			if hi > len(tf) {
+				hi = len(tf)
+			}
+			arraiDocs = append(arraiDocs, genTypeFormat(c.Rng, "openapi3", "oas3-type-format", tf[i*per:hi]))
+		}
+		nm := 1
+		if c.Thorough() {
+			nm = 6
+		}
+		for i := 0; i < nm; i++ {
+			md := genMediaTypes(c.Rng, "openapi3", "oas3-media-types")
+			md.Repeat = 2
+			arraiDocs = append(arraiDocs, md)
+		}
+	}
 	arraiResults := make([]ares, len(arraiDocs))
 	var wg sync.WaitGroup
 	lanes := 4
@@ -551,9 +802,9 @@ func docsStream(c *common.Ctx) {
 		}(l)
 	}
 	oc := c.NewCases("C11oas", `From Coq Require Import String List NArith Bool. Import ListNotations.
-Require Import Verif.Foreign.NameEscape Verif.Foreign.ImportSpec Verif.Foreign.ImportRun Verif.Base.Harness.
-Local Open Scope string_scope. Local Open Scope N_scope.`, "oas_case",
-		`Definition M := Eval vm_compute in mismatches oas_ok cases. Print M.`, 40)
+Require Import Verif.Foreign.NameEscape Verif.Foreign.ImportSpec Verif.Foreign.ResponseSpec Verif.Foreign.ImportRun Verif.Base.Harness.
+Local Open Scope string_scope. Local Open Scope N_scope.`, "full_case",
+		`Definition M := Eval vm_compute in mismatches full_ok cases. Print M.`, 40)
 	defer oc.Close()
 	xc := c.NewCases("C11xsd", `From Coq Require Import String List NArith Bool. Import ListNotations.
 Require Import Verif.Foreign.NameEscape Verif.Foreign.ImportSpec Verif.Foreign.XsdSpec Verif.Foreign.ImportRun Verif.Base.Harness.
@@ -566,7 +817,9 @@ Local Open Scope string_scope. Local Open Scope N_scope.`, "ep_case",
 		`Definition M := Eval vm_compute in mismatches ep_ok cases. Print M.`, 40)
 	defer ec.Close()
 	finish := func(d doc, o docObs) {
-		if d.Format == "swagger" && o.EpProj != nil && len(d.Eps) > 0 {
+		if d.Format == "swagger" && o.EpProj != nil && len(d.Eps) > 0 && mediaCollision(d) {
+			c.Hist("doc-model:endpoints-not-compared(same-named body parameters: output depends on Go's map order)")
+		} else if d.Format == "swagger" && o.EpProj != nil && len(d.Eps) > 0 {
 			if g, ok := gEpProj(o.EpProj); ok {
 				ec.Add(fmt.Sprintf("(%s, %s)", gEndpoints(d), g), d)
 				c.Hist("doc-model:endpoints-compared-in-coq")
@@ -584,8 +837,22 @@ Local Open Scope string_scope. Local Open Scope N_scope.`, "ep_case",
 			} else if orderDependentArray(d) {
 				c.Hist("doc-model:not-compared(output depends on Go's map order)")
 			} else if g, ok := gProj(o.Proj); ok {
-				oc.Add(fmt.Sprintf("(%s, %s)", gOasDoc(d), g), d)
-				c.Hist("doc-model:compared-in-coq")
+				if rets, ok := gRets(o.EpProj); ok {
+					oc.Add(fmt.Sprintf("((%s, %s), (%s, %s))", gOasDoc(d), gOps(d), g, rets), d)
+					c.Hist("doc-model:compared-in-coq")
+					if hasWrapperTypes(d) {
+						c.Hist("doc-model:compared-in-coq(with generated response types)")
+					}
+					var ts []typeOut
+					json.Unmarshal(o.Proj, &ts)
+					for _, t := range ts {
+						for _, m := range []string{"GET__", "PUT__", "POST__", "DELETE__", "PATCH__"} {
+							if strings.HasPrefix(t.Name, m) {
+								c.Hist("doc-model:compared-in-coq(response type renamed with its method)")
+							}
+						}
+					}
+				}
 			}
 		}
 		nprops := 0
@@ -610,7 +877,13 @@ Local Open Scope string_scope. Local Open Scope N_scope.`, "ep_case",
 			}
 		}
 	}
-	run := func(d doc) { finish(d, judgeDoc(c, d)) }
+	// every document of the Go-writer path is imported 16 times in one worker process (first + second + 14)
+	run := func(d doc) {
+		if d.Repeat == 0 {
+			d.Repeat = 14
+		}
+		finish(d, judgeDoc(c, d))
+	}
 	t0 := time.Now()
 	lap := func(what string) {
 		c.Res.Notes = append(c.Res.Notes, fmt.Sprintf("%s: %.1fs", what, time.Since(t0).Seconds()))
@@ -638,6 +911,60 @@ Local Open Scope string_scope. Local Open Scope N_scope.`, "ep_case",
 		run(genSharedParams(c.Rng, "oas2-shared-path-params"))
 	}
 	lap("oas2-shared-path-params")
+	// OpenAPI type x format: every type with no format, every listed and a dozen unlisted formats, each in every
+	// position (property, array item, definition, array definition, path / query / header parameter, response)
+	{
+		tf := allTypeFormats()
+		const per = 6
+		for i := 0; i < len(tf); i += per {
+			hi := i + per
+			if hi > len(tf) {
+				hi = len(tf)
+			}
+			run(genTypeFormat(c.Rng, "swagger", "oas2-type-format", tf[i:hi]))
+		}
+		if c.Thorough() {
+			// random mixtures
+			for i := 0; i < 60; i++ {
+				var ps []string
+				for k := 0; k < 5; k++ {
+					ps = append(ps, tf[c.Rng.Intn(len(tf))])
+				}
+				run(genTypeFormat(c.Rng, "swagger", "oas2-type-format", ps))
+			}
+		}
+		lap("oas2-type-format")
+	}
+	// request / response media types; the first few documents are also imported in 16 fresh processes each
+	{
+		n, nfresh := 30, 3
+		if c.Thorough() {
+			n, nfresh = 300, 16
+		}
+		if c.Search {
+			n *= 2
+		}
+		for i := 0; i < n; i++ {
+			d := genMediaTypes(c.Rng, "swagger", "oas2-media-types")
+			run(d)
+			if i < nfresh {
+				freshImports(c, d, 16)
+			}
+		}
+		run(mediaCollisionDoc())
+		lap("oas2-media-types")
+	}
+	// XSD builtin types
+	{
+		n := 6
+		if c.Thorough() {
+			n = 60
+		}
+		for i := 0; i < n; i++ {
+			run(genXsdBuiltins(c.Rng, "xsd-builtins"))
+		}
+		lap("xsd-builtins")
+	}
 	// recursive types: their own small stream
 	nrec := 6
 	if c.Thorough() {
